@@ -1,6 +1,7 @@
 """C05: every destination receives each source's records in read order."""
 import os, sys
 sys.path.insert(0, os.path.dirname(__file__))
+from stream_jobs import JOBS as _SJ, LEAN_MODULES as _SM, RULE as _SR, ASSUMPTIONS as _SA
 from funnel_common import funnel_job, funnel_conc_job, funnel_shared_job, FUNNEL_RULE, FUNNEL_ASSUME
 
 PROP = {
@@ -11,6 +12,11 @@ PROP = {
                 "to each destination is decided by the monitor on every implementation trace + equality with the model (partial: composition not proved). v1: see Props/C05Stream when merged",
     "assumptions": FUNNEL_ASSUME,
 }
+PROP["jobs"] += _SJ["C05"]
+PROP["lean_modules"] += _SM["C05"]
+PROP["rule"] += " || v1: " + _SR
+PROP["assumptions"] = list(PROP["assumptions"]) + _SA
+
 META = {
     "text": "Lean 4 theorems for every status vector: the sub-batches the arch-v2 worker hands to the next task are non-empty, contiguous, "
             "in index order and cover the batch exactly once (C05_subbatches_partition / _cover / _groups_progress). The executable model of the "
